@@ -605,7 +605,12 @@ impl<'a> World<'a> {
             }
             2 if d.entry == 1 => {
                 let mut v = value;
-                v.resize(5 * 1024 * 1024 + 16, 0);
+                v.resize(ant_networking::MAX_PACKET_SIZE + 16, 0);
+                (v, true)
+            }
+            4 if d.entry == 1 => {
+                let mut v = value;
+                v.resize(ant_networking::MAX_PACKET_SIZE, 0);
                 (v, true)
             }
             3 if kind == 0 && proof.is_none() => {
@@ -1292,7 +1297,7 @@ impl<'a> World<'a> {
             self.rep.fault("mismatched_key_presented");
         }
         if d.mangle != 0 {
-            self.rep.fault(if d.mangle == 1 { "unparseable_value" } else { "oversized_value" });
+            self.rep.fault(match d.mangle { 1 => "unparseable_value", 4 => "value_of_exactly_the_maximum_packet_size", _ => "oversized_value" });
         }
         if faulty && d.pay.is_none() && d.key_mode == 0 && d.mangle == 0 {
             self.rep.fault("stale_or_invalid_or_unpaid_delivery");
@@ -1333,8 +1338,14 @@ impl<'a> World<'a> {
                 });
             }
             1 => {
+                let oversized = record.value.len() >= ant_networking::MAX_PACKET_SIZE;
                 let r = self.host.driver.verif_store_mut().put(record);
                 self.rep.log(format!("  RecordStore::put -> {r:?}"));
+                if oversized && r.is_ok() {
+                    // "oversized ... ones are refused": a value that does not fit the network's maximum packet is
+                    // turned away at the door, it is not handed on for validation
+                    self.rep.violate("C04", "oversized_value_not_refused", &[("size", if d.mangle == 4 { "exactly_max_packet_size".into() } else { "above_max_packet_size".to_string() })], format!("RecordStore::put accepted a value of {} bytes (maximum packet size {})", if d.mangle == 4 { ant_networking::MAX_PACKET_SIZE } else { ant_networking::MAX_PACKET_SIZE + 16 }, ant_networking::MAX_PACKET_SIZE));
+                }
             }
             _ => {
                 let holder = self.peers[self.close[n % self.close.len().max(1)]].1;
